@@ -1861,7 +1861,7 @@ Proof.
   cbv zeta. split; [constructor; reflexivity|]. split.
   - unfold getk. simpl. apply nth_app_new.
   - simpl. rewrite app_length. simpl. lia.
-Qed.
+Time Qed.
 
 Lemma fc_first s n :
   getk s n = new_caller -> n < length (callers s) -> connected s = false -> locked s = false -> waiters s = [] ->
@@ -1880,7 +1880,7 @@ Proof.
   change (script (set_chst Connecting (set_locked true (deq (IRun n) s)))) with (script s). rewrite Sc. cbv zeta iota.
   unfold setph, updk, getk. simpl callers. simpl conns. simpl protocol. simpl creates. simpl waiters.
   rewrite nth_upd_same, upd_length; auto. fold (getk s n). rewrite G. repeat split; auto.
-Qed.
+Time Qed.
 
 Lemma fc_resolve s n x :
   getk s n = x -> ph x = PAttempt (AFlight OOk) -> n < length (callers s) ->
@@ -1892,7 +1892,7 @@ Proof.
   intros G P Ln. cbv zeta. simpl step. rewrite G, P. unfold new_conn, setph, updk, getk.
   simpl callers. simpl conns. simpl protocol. simpl creates. simpl waiters.
   rewrite nth_upd_same, upd_length; auto. fold (getk s n). rewrite G. repeat split; auto.
-Qed.
+Time Qed.
 
 Lemma fc_owner s n x c :
   getk s n = x -> ph x = PAttempt (AOk c) -> cancelp x = false -> n < length (callers s) ->
@@ -1917,7 +1917,7 @@ Proof.
   unfold setph, updk, updc, getk, getc. simpl callers. simpl conns. simpl protocol. simpl creates. simpl locked.
   rewrite R1, R2, R3, R4, R5, !upd_length, !nth_upd_same; auto.
   fold (getk s n). fold (getc s c). rewrite G, Gc. repeat split; auto.
-Qed.
+Time Qed.
 
 Lemma fc_answer s n x c :
   getk s n = x -> ph x = PReg c -> answered x = false -> n < length (callers s) -> valid_open s c = true ->
@@ -1927,7 +1927,7 @@ Proof.
   intros G P A Ln V. cbv zeta. simpl step. rewrite G, P, V, A. simpl andb. cbv iota.
   rewrite getk_mark, mark_conns, mark_protocol, mark_creates, getk_updk_flag, Nat.eqb_refl.
   apply Nat.ltb_lt in Ln. rewrite Ln, G. auto.
-Qed.
+Time Qed.
 
 Lemma fc_done s n x c :
   getk s n = x -> ph x = PReg c -> term x = false -> cancelp x = false -> answered x = true ->
@@ -1939,7 +1939,7 @@ Proof.
   repeat split.
   - unfold endc, setph, updk, getk. simpl callers. rewrite nth_upd_same; auto.
   - rewrite lives_endc, lives_updc_same. reflexivity. intros []; reflexivity.
-Qed.
+Time Qed.
 
 Lemma fresh_call_connects s :
   Inv s -> quiet s -> connected s = false -> hd (OOk, false) (script s) = (OOk, false) ->
@@ -1983,7 +1983,7 @@ Proof.
   - rewrite Gc4. simpl. auto.
   - lia.
   - rewrite Lc4, C3, app_length. simpl. lia.
-Qed.
+Time Qed.
 
 Lemma chclose_quiet s : quiet s -> quiet (step s ChClose) /\ connected (step s ChClose) = false /\
   script (step s ChClose) = script s /\ length (callers (step s ChClose)) = length (callers s) /\
@@ -1997,7 +1997,7 @@ Proof.
     change (phases (set_chst Idle (set_protocol None (proc_close n s)))) with (phases (proc_close n s)).
     rewrite A, <- getk_ph. auto.
   - unfold quiet, connected. simpl. rewrite Pr. repeat split; auto.
-Qed.
+Time Qed.
 
 Lemma run_cons o l s : run (o :: l) s = run l (step s o).
 Proof. reflexivity. Qed.
@@ -2027,7 +2027,7 @@ Proof.
   destruct (fc_done s5 n _ c G5 eq_refl eq_refl eq_refl eq_refl ltac:(lia)) as (PH6 & P6 & Cr6 & Lv6).
   split; [rewrite Cr6, Cr5, Cr; reflexivity|]. split; [rewrite P6, P5; exact Pr|]. split; [exact PH6|].
   rewrite live_getc, Lv6. unfold lives. rewrite C5. fold (lives s4). rewrite <- live_getc. exact LC.
-Qed.
+Time Qed.
 
 (* ---- (T7) the channel remains usable after close(): a fresh call reconnects (exactly one new
         connection) and completes *)
@@ -2044,4 +2044,4 @@ Proof.
   rewrite <- Sc0 in Sc.
   pose proof (fresh_call_completes (step s ChClose) n c I0 Q0 Cn0 Sc (eq_sym Ln0) (eq_sym Lc0)) as F. cbv zeta in F.
   rewrite Cr0 in F. exact F.
-Qed.
+Time Qed.
